@@ -21,7 +21,15 @@ let () =
            let (args, impl_obs) = if print_mode then (rest, "") else split_last rest in
            let model_obs =
              match Hashtbl.find_opt Registry.table fn with
-             | None -> "MODEL-ERROR:unknown-fn:" ^ fn
+             | None ->
+               (match Hashtbl.find_opt Registry.judges fn with
+                | None -> "MODEL-ERROR:unknown-fn:" ^ fn
+                | Some j ->
+                  if print_mode then "(judge)" else
+                  (try (match j args impl_obs with "OK" -> impl_obs | why -> "NOT-ADMISSIBLE:" ^ why) with
+                   | Failure m -> "MODEL-ERROR:" ^ m
+                   | Stack_overflow -> "MODEL-ERROR:stack-overflow"
+                   | Not_found -> "MODEL-ERROR:not-found"))
              | Some f ->
                (try f args with
                 | Failure m -> "MODEL-ERROR:" ^ m
